@@ -349,13 +349,10 @@ fn c14_global_unknown_union() {
     fgt(a1); fgt(b2);
 }
 
+fn model_sort<T: Ord>(_v: &mut [T]) {}
 #[kani::proof]
 #[kani::unwind(5)]
 #[kani::stub(zffi::secp256k1_ec_pubkey_cmp, model_ec_pubkey_cmp)]
 #[kani::stub(sfmt::format, model_format)]
+#[kani::stub(<[Tweak]>::sort, model_sort)]
 fn zz_probe_case_conflict_2_1() { xpub_case::<2, 1>(Mode::Conflict); }
-#[kani::proof]
-#[kani::unwind(5)]
-#[kani::stub(zffi::secp256k1_ec_pubkey_cmp, model_ec_pubkey_cmp)]
-#[kani::stub(sfmt::format, model_format)]
-fn zz_probe_case_reconcile_1_2() { xpub_case::<1, 2>(Mode::Reconcile); }
